@@ -220,6 +220,29 @@ fn present(text: &str, sorting: usize, base_of_label: &dyn Fn(&str) -> Option<us
                 a.twoval.push(l);
             }
         }
+        // the same parser object sorted again (the other way) and a new object built from it: still the same answers
+        if sorting != 2 {
+            parser.varsort_alphanum();
+        } else {
+            parser.varsort_lexi();
+        }
+        let mut again = Adf::from_parser(&parser);
+        let ord = again.ordering.clone();
+        let nm5 = move |i: usize| ord.name(Var(i));
+        if let Some(g) = to_base(&nm5, &again.grounded(), &mut o) {
+            a.grounded.push(g);
+        }
+        if do_stable && do_complete {
+            if let Some(l) = list(&nm5, &again.stable().collect::<Vec<_>>(), &mut o) {
+                a.stable.push(l);
+            }
+        }
+        let bd3 = BdAdf::from_parser(&parser);
+        let vc3 = parser.var_container();
+        let nm6 = move |i: usize| vc3.name(Var(i));
+        if let Some(g) = to_base(&nm6, &bd3.grounded(), &mut o) {
+            a.grounded.push(g);
+        }
         (a, o)
     });
     adf_bdd::verif::set_budget(None);
@@ -324,6 +347,74 @@ pub fn large_variant(l: &LargeAdf, k: usize, sorting: usize, reference: &mut Opt
         }
         let r = reference.as_ref().unwrap();
         compare(&a, &r.0, r.1.as_ref(), r.2.as_ref(), r.3.as_ref(), &mut out);
+    }
+    out
+}
+
+/// an instance whose diagram size depends on the variable order: z = OR_i (x_i & y_i), declared interleaved
+/// (x01, y01, x02, ...: about 2m nodes) - sorting moves all x before all y (2^(m+1) nodes). Bridged back-ends only
+/// (the naive compiler needs minutes for the sorted order). The grounded interpretation leaves everything undecided.
+pub fn order_sensitive_case(m: usize) -> Vec<(String, String)> {
+    let mut out = vec![];
+    let mut labels = vec![];
+    for i in 1..=m {
+        labels.push(format!("x{:02}", i));
+        labels.push(format!("y{:02}", i));
+    }
+    labels.push("z".to_string());
+    let n = labels.len();
+    let mut text = String::new();
+    for l in &labels {
+        text += &format!("s({}).", l);
+    }
+    for i in 0..m {
+        text += &format!("ac(x{:02},x{:02}).ac(y{:02},y{:02}).", i + 1, i + 1, i + 1, i + 1);
+    }
+    let mut f = format!("and(x{:02},y{:02})", 1, 1);
+    for i in 2..=m {
+        f = format!("or({},and(x{:02},y{:02}))", f, i, i);
+    }
+    text += &format!("ac(z,{}).", f);
+    for sorting in 0..3 {
+        let r = guard(|| {
+            let parser = AdfParser::default();
+            parser.parse()(&text).expect("well-formed");
+            match sorting {
+                1 => {
+                    parser.varsort_lexi();
+                }
+                2 => {
+                    parser.varsort_alphanum();
+                }
+                _ => {}
+            }
+            let bd = BdAdf::from_parser(&parser);
+            let g1 = bd.grounded();
+            let mut hy = bd.hybrid_step();
+            let g2 = hy.grounded();
+            let mut h2 = bd.hybrid_step_opt(false);
+            let g3 = h2.grounded();
+            let names: Vec<String> = parser.var_container().names().read().unwrap().clone();
+            (names, vec![g1, g2, g3], hy.bdd.nodes.len().max(h2.bdd.nodes.len()))
+        });
+        let sname = ["unsorted", "varsort_lexi", "varsort_alphanum"][sorting];
+        match r {
+            Err(m) => out.push((format!("order-sensitive[{}]:panic", sname), m)),
+            Ok((names, gs, _size)) => {
+                let mut sorted_names = names.clone();
+                sorted_names.sort();
+                let mut all = labels.clone();
+                all.sort();
+                if sorted_names != all {
+                    out.push((format!("order-sensitive[{}]:labels", sname), "the statements of the object are not the declared ones".into()));
+                }
+                for g in gs {
+                    if g.len() != n || g.iter().any(|t| t.is_truth_value()) {
+                        out.push((format!("order-sensitive[{}]:grounded", sname), format!("grounded is {:?}, every statement is undecided by definition", conv(&g))));
+                    }
+                }
+            }
+        }
     }
     out
 }
@@ -439,6 +530,24 @@ pub fn run_c10(run: &Run) {
         run.add_counts(st.0, st.0 * 7, st.0, st.1);
         run.add_outcomes(st.2);
     }
+    // order-sensitive size
+    let ms: Vec<usize> = if quick { vec![8, 16] } else { vec![8, 12, 16, 17] };
+    let res = run.par_family(
+        "order-sensitive instances: z = OR of m products, interleaved declaration vs. sorted order (up to 2^18 nodes), bridged back-ends",
+        ms.len() as u64,
+        || 0u64,
+        |st, k| {
+            *st += 3;
+            run.heartbeat();
+            for (kind, msg) in order_sensitive_case(ms[k as usize]) {
+                run.violation(&kind, format!("{} (m = {})", msg, ms[k as usize]), json!({"type": "order-sensitive", "m": ms[k as usize]}));
+            }
+        },
+        &|k| json!({"type": "order-sensitive", "m": ms[k as usize]}),
+    );
+    for st in res {
+        run.add_counts(st, st * 3, st, st);
+    }
     let c = a2.get(97);
     run.sample(json!({"type": "small-variant", "text": small_variant(&c.fms, &c.tts, &kth_perm(4, 17), 1, 1, 1).0, "sorting": "lexicographic"}));
     run.sample(json!({"type": "large-variant", "index": run.seed * 1000 + 5, "order": 5, "sorting": 2}));
@@ -447,6 +556,9 @@ pub fn run_c10(run: &Run) {
 }
 
 pub fn replay(c: &Value) -> Vec<(String, String)> {
+    if c["type"] == "order-sensitive" {
+        return order_sensitive_case(c["m"].as_u64().unwrap_or(8) as usize);
+    }
     if c["type"] == "large-variant" {
         let l = large(c["index"].as_u64().unwrap_or(0));
         let mut reference = None;
